@@ -12,6 +12,7 @@ package main
 // ones, so "unsat" from it is a proof; "sat" from it is never believed.
 
 import (
+	"golang.org/x/tools/go/ssa"
 	"os"
 	"regexp"
 	"fmt"
@@ -29,6 +30,7 @@ type hyp struct {
 	done  map[string]bool
 	strKey bool                      // the single variable is a string (map key)
 	heaps map[string]map[string]bool // quantified variable -> element heaps it indexes directly (nil: unknown)
+	blk   *ssa.BasicBlock            // block in which the hypothesis was assumed (nil: function entry)
 }
 
 func hasQuant(s string) bool {
@@ -42,7 +44,7 @@ func (g *Gen) assumeClause(cl *Clause, env *Env, reach string) {
 	}
 	s := g.mustEval(cl, env)
 	g.assuming = ""
-	g.addFact(implies(reach, s))
+	g.addFactAt(implies(reach, s), g.curBlock)
 	henv := *env
 	henv.st = env.st.clone()
 	g.registerHyps(cl.E, nil, &henv, reach)
@@ -62,17 +64,17 @@ func (g *Gen) registerHyps(e Expr, pre []Expr, env *Env, reach string) {
 	case *EQuant:
 		if x.Forall && len(x.Vars) == 1 && x.Vars[0].Type == "string" {
 			// map-key shaped hypothesis: instantiated at the key terms of map operations
-			h := &hyp{pre: pre, qv: x.Vars[0], qvs: x.Vars, body: x.Body, env: env, reach: reach, done: map[string]bool{}, strKey: true}
+			h := &hyp{pre: pre, qv: x.Vars[0], qvs: x.Vars, body: x.Body, env: env, reach: reach, done: map[string]bool{}, strKey: true, blk: g.curBlock}
 			g.hyps = append(g.hyps, h)
 			for _, t := range g.seenKeys {
 				if f := g.instStr(h, t); f != "" {
-					g.addFact(f)
+					g.addFactAt(f, h.blk)
 				}
 			}
 			return
 		}
 		if x.Forall && allIntVars(x.Vars) {
-			h := &hyp{pre: pre, qv: x.Vars[0], qvs: x.Vars, body: x.Body, env: env, reach: reach, done: map[string]bool{}}
+			h := &hyp{pre: pre, qv: x.Vars[0], qvs: x.Vars, body: x.Body, env: env, reach: reach, done: map[string]bool{}, blk: g.curBlock}
 			h.heaps = g.varHeaps(env, append(append([]Expr{}, pre...), x.Body), x.Vars)
 			g.hyps = append(g.hyps, h)
 			if len(x.Vars) == 1 {
@@ -86,7 +88,7 @@ func (g *Gen) registerHyps(e Expr, pre []Expr, env *Env, reach string) {
 						continue
 					}
 					if f := g.instStr(h, t); f != "" {
-						g.addFact(f)
+						g.addFactAt(f, h.blk)
 					}
 				}
 			}
@@ -291,7 +293,7 @@ func (g *Gen) seeMapKey(term string) {
 			continue
 		}
 		if f := g.instStr(h, term); f != "" {
-			g.addFact(f)
+			g.addFactAt(f, h.blk)
 		}
 	}
 }
@@ -356,7 +358,7 @@ func (g *Gen) seeIndex(term string, key string) {
 			continue
 		}
 		if f := g.instStr(h, term); f != "" {
-			g.addFact(f)
+			g.addFactAt(f, h.blk)
 		}
 	}
 }
@@ -717,6 +719,9 @@ func (g *Gen) lightGoal(o *Obligation, e Expr, env *Env, cond string) {
 	}
 	extra := append([]string{}, g.seenIdx[lo:]...)
 	for _, h := range g.hyps {
+		if h.blk != nil && o.Blk != nil && h.blk.Parent() == o.Blk.Parent() && !g.blockReaches(h.blk, o.Blk) {
+			continue // assumed on a path that cannot lead to this obligation
+		}
 		if h.strKey {
 			for _, t := range g.seenKeys {
 				saved := h.done[t]
